@@ -44,7 +44,7 @@ theorem stages {fuel : Nat} {hundred eps : α} {u : Upload α} {rows : List (Fe.
       alignDims names lt0 pt0 = some (lt1, pt1) ∧ extractDistrust lt1 = .ok (c, d) ∧
       canonicalizeLocalTrust c (some (canonicalizeTrustVector pt1)) = .ok c' ∧
       canonicalizeLocalTrust d none = .ok d' ∧
-      compute fuel c' (canonicalizeTrustVector pt1) (div (ofNat hp.toNat) hundred) eps {} = .ok res ∧
+      compute fuel c' (canonicalizeTrustVector pt1) (div (ofNat hp.toNat) hundred) eps (pgOpts (div (ofNat hp.toNat) hundred) eps) = .ok res ∧
       rows = sortByScoreDesc (rowsOf names pt1 (discountTrustVector res.t d')) ∧
       DimRule u names pt1.dim := by
   obtain ⟨hp, names, lt0, pt0, lt1, pt1, c, d, c', d', res, h1, h2, h3, h4, h5, h6, h7, h8, h9,
@@ -101,7 +101,7 @@ theorem rows_scores {fuel : Nat} {hundred eps : α} {u : Upload α} {rows : List
       alignDims names lt0 pt0 = some (lt1, pt1) ∧ extractDistrust lt1 = .ok (c, d) ∧
       canonicalizeLocalTrust c (some (canonicalizeTrustVector pt1)) = .ok c' ∧
       canonicalizeLocalTrust d none = .ok d' ∧
-      compute fuel c' (canonicalizeTrustVector pt1) (div (ofNat hp.toNat) hundred) eps {} = .ok res ∧
+      compute fuel c' (canonicalizeTrustVector pt1) (div (ofNat hp.toNat) hundred) eps (pgOpts (div (ofNat hp.toNat) hundred) eps) = .ok res ∧
       ∀ row ∈ rows, row.index < pt1.dim ∧
         row.score = denE (discountTrustVector res.t d').entries row.index ∧
         row.name = nameOf names row.index := by
